@@ -121,6 +121,15 @@ def replay_behaviour(ctx, b, idx):
 
 def run(ctx):
     rnd = random.Random(ctx.seed)
+    # generator-grain sessions on one object (spec/Sessions.tla): listings read alternately, abandoned half way, options
+    # edited in place between requests; every next() validated by Sessions_Val, design model-checked by Sessions_MC
+    from . import sessions
+    from . import c13 as _c13
+    sessions.model_check(ctx)
+    for i_ in range(2):
+        sessions.run_sessions(ctx, random.Random(ctx.seed * 2 + 77 + i_), 120 if ctx.quick else 2500, ('cs', 'cs', 'tr'),
+                              lambda r, world=None: _c13.gen_dump(r, world=world, orphans=0.1, samples=0.4),
+                              sessions.cfg_light, 'ses%d_' % i_)
     ctx.expect_ok(run_tlc('Callstacks_MC', MC_CFG % ('Spec', 5 if ctx.quick else 7, '0, 1, 2, 4', INVS), ctx.workdir,
                           name='cs_mc', timeout=3600))
     r = run_tlc('Callstacks_MBT', MC_CFG % ('MSpec', 3, '0, 1, 2, 4', 'INVARIANT Export'), ctx.workdir, name='cs_mbt',
